@@ -20,18 +20,29 @@ type dmaJob struct {
 	lcdOff   bool
 	every    bool // restart at a fixed cycle `at` instead of random
 	at       int
-	alt      int // restarts alternate between page and this page (0: always the same page)
+	alt      int  // restarts alternate between page and this page (0: always the same page)
+	rtcHalt  bool // clock cartridge (MBC3) with its clock halted: the transfer is none of the clock's business
 }
 
 func dmaRun(j dmaJob) *trace.Scenario {
 	rng := rand.New(rand.NewSource(j.seed))
-	m := machine.New(cartImage(memCart), machine.Options{NoCPU: true})
+	cart := memCart
+	if j.rtcHalt {
+		cart = rtcCart
+	}
+	m := machine.New(cartImage(cart), machine.Options{NoCPU: true})
 	// OAM is prepared with the LCD off; an LCD-on scenario switches it on again afterwards (see below)
 	m.QuietLCD()
 	if rng.Intn(3) > 0 {
 		m.M.Write(0x0000, 0x0a) // cartridge RAM enabled (else A000-BFFF sources read FF)
 	}
-	sc := &trace.Scenario{ID: j.id, Reset: []any{j.seed, j.page, j.restarts, trace.B2I(j.mutate), trace.B2I(j.lcdOff), trace.B2I(j.every), j.at, j.alt}}
+	if j.rtcHalt {
+		m.M.Write(0x0000, 0x0a)
+		m.M.Write(0x4000, 0x0c)
+		m.M.Write(0xa000, 0x40) // halt bit of the clock's control register
+		m.M.Write(0x4000, 0x00)
+	}
+	sc := &trace.Scenario{ID: j.id, Reset: []any{j.seed, j.page, j.restarts, trace.B2I(j.mutate), trace.B2I(j.lcdOff), trace.B2I(j.every), j.at, j.alt, trace.B2I(j.rtcHalt)}}
 	perr := machine.Try(func() {
 		base := j.page << 8
 		// randomise the source where it is writable
@@ -134,7 +145,7 @@ func dmaMain(c *Ctx) {
 			if len(r) > 7 {
 				alt = trace.Int(r[7])
 			}
-			w.Put(dmaRun(dmaJob{s.ID, int64(trace.Int(r[0])), trace.Int(r[1]), trace.Int(r[2]), trace.Int(r[3]) == 1, trace.Int(r[4]) == 1, trace.Int(r[5]) == 1, trace.Int(r[6]), alt}))
+			w.Put(dmaRun(dmaJob{s.ID, int64(trace.Int(r[0])), trace.Int(r[1]), trace.Int(r[2]), trace.Int(r[3]) == 1, trace.Int(r[4]) == 1, trace.Int(r[5]) == 1, trace.Int(r[6]), alt, len(r) > 8 && trace.Int(r[8]) == 1}))
 		}
 		w.Close()
 		return
@@ -154,6 +165,10 @@ func dmaMain(c *Ctx) {
 			continue
 		}
 		add(dmaJob{page: p, lcdOff: p%2 == 0, restarts: rng.Intn(2), mutate: p >= 0xc0 && rng.Intn(2) == 0})
+	}
+	// on a clock cartridge whose clock is halted
+	for _, p := range []int{0xc1, 0xe5, 0x40, 0x85, 0xa0} {
+		add(dmaJob{page: p, rtcHalt: true, lcdOff: p%2 == 1, restarts: rng.Intn(2)})
 	}
 	// restarts at every cycle of the transfer for three pages
 	step := 3
